@@ -286,8 +286,10 @@ fn write_crate_with(dir: &Path, name: &str, repo: &Path, em: &Emitted, feats: &s
     std::fs::create_dir_all(&src).map_err(|e| e.to_string())?;
     std::fs::create_dir_all(dir.join(".cargo")).map_err(|e| e.to_string())?;
     let toml = format!(
-        "[package]\nname = \"{name}\"\nversion = \"0.0.0\"\nedition = \"2021\"\npublish = false\n\n[workspace]\n\n[dependencies]\nunic-langid = {{ path = \"{r}/unic-langid\", features = [{feats}] }}\nunic-locale = {{ path = \"{r}/unic-locale\", features = [{feats}] }}\n\n[profile.dev]\ndebug = 0\nincremental = false\n",
-        r = repo.display()
+        "[package]\nname = \"{name}\"\nversion = \"0.0.0\"\nedition = \"2021\"\npublish = false\n\n[workspace]\n\n[dependencies]\nunic-langid = {{ path = \"{r}/unic-langid\", features = [{feats}] }}\nunic-locale = {{ path = \"{r}/unic-locale\", features = [{feats_locale}] }}\n\n[profile.dev]\ndebug = 0\nincremental = false\n",
+        r = repo.display(),
+        // unic-locale has no serde feature of its own
+        feats_locale = feats.split(',').map(|f| f.trim()).filter(|f| *f != "\"serde\"").collect::<Vec<_>>().join(", ")
     );
     std::fs::write(dir.join("Cargo.toml"), toml).map_err(|e| e.to_string())?;
     std::fs::write(dir.join(".cargo/config.toml"), "[net]\noffline = true\n").map_err(|e| e.to_string())?;
